@@ -42,6 +42,8 @@ def parse_type(s):
         return ("opt", parse_type(s[4:-1]))
     if s.startswith("list[") and s.endswith("]"):
         return ("list", parse_type(s[5:-1]))
+    if s.startswith("glist[") and s.endswith("]"):
+        return ("list", parse_type(s[6:-1]), "g")      # ghost list: lives in its own heap arrays (GLen, GStr, ...)
     if s.startswith("ref:"):
         return ("ref", s[4:])
     if s.startswith("optref:"):
@@ -68,6 +70,16 @@ def sort_of(ty):
         if ty[0] == "opt":
             return sort_of(ty[1])
     raise VCError(f"no sort for type {ty!r}")
+
+
+def len_key(lty):
+    """heap array holding the length of a list of (static) type lty"""
+    return "GLen" if isinstance(lty, tuple) and len(lty) > 2 and lty[2] == "g" else "LLen"
+
+
+def arr_key(lty):
+    k = elem_array_key(lty[1])
+    return "G" + k[1:] if isinstance(lty, tuple) and len(lty) > 2 and lty[2] == "g" else k
 
 
 def elem_array_key(ty):
